@@ -25,6 +25,8 @@ pub struct VClock {
 thread_local! {
     static ARMED: Cell<bool> = const { Cell::new(false) };
     static CLK: Cell<VClock> = const { Cell::new(VClock { real_ns: 0, mono_ns: 0, auto_advance_ns: 0, fail_errno: 0, fail_clock: -1 }) };
+    /// transient failure: (clock id or -1 for any, index of the matching read that fails, errno, matching reads so far)
+    static FAIL_ONCE: Cell<Option<(i32, u32, i32, u32)>> = const { Cell::new(None) };
     static LOG_ON: Cell<bool> = const { Cell::new(false) };
     static LOG: RefCell<Vec<(i32, i128)>> = const { RefCell::new(Vec::new()) };
 }
@@ -34,11 +36,23 @@ static G_ARMED: AtomicBool = AtomicBool::new(false);
 static G_REAL: AtomicI64 = AtomicI64::new(0);
 static G_MONO: AtomicI64 = AtomicI64::new(0);
 
+/// Make exactly one read fail: the `nth` (0-based, counted from now) read of clock `clk` (-1: of any clock)
+/// returns -1 with `errno`; every other read succeeds. Cleared by `arm`/`disarm`.
+pub fn fail_once(clk: i32, nth: u32, errno: i32) {
+    FAIL_ONCE.with(|f| f.set(Some((clk, nth, errno, 0))));
+}
+/// true if the armed transient failure has been delivered
+pub fn fail_once_fired() -> bool {
+    FAIL_ONCE.with(|f| matches!(f.get(), Some((_, n, _, seen)) if seen > n))
+}
+
 pub fn arm(c: VClock) {
+    FAIL_ONCE.with(|f| f.set(None));
     CLK.with(|k| k.set(c));
     ARMED.with(|a| a.set(true));
 }
 pub fn disarm() {
+    FAIL_ONCE.with(|f| f.set(None));
     ARMED.with(|a| a.set(false));
 }
 pub fn get() -> VClock {
@@ -132,6 +146,22 @@ pub unsafe extern "C" fn clock_gettime(clk: libc::clockid_t, ts: *mut libc::time
         if c.fail_errno != 0 && (c.fail_clock < 0 || c.fail_clock == clk) {
             errno::set_errno(errno::Errno(c.fail_errno));
             return -1;
+        }
+        if let Some((fc, nth, e, seen)) = FAIL_ONCE.with(|f| f.get()) {
+            if fc < 0 || fc == clk {
+                FAIL_ONCE.with(|f| f.set(Some((fc, nth, e, seen + 1))));
+                if seen == nth {
+                    if LOG_ON.with(|l| l.get()) {
+                        LOG.with(|l| {
+                            if let Ok(mut l) = l.try_borrow_mut() {
+                                l.push((-200 - clk, 0))
+                            }
+                        });
+                    }
+                    errno::set_errno(errno::Errno(e));
+                    return -1;
+                }
+            }
         }
         let v = if is_real(clk) { c.real_ns } else { c.mono_ns };
         put(ts, v);
